@@ -208,6 +208,8 @@ where
 
     fn initialize_vring(&self, vring: &T::Vring, index: u8) -> VhostUserResult<()> {
         vring.set_queue_ready(true);
+        #[cfg(feature = "verif-hooks")]
+        vhost::vhost_user::verif_hooks::hold("ctl.ready", u64::from(index));
         self.update_vring_registration(vring, index)
     }
 
@@ -243,6 +245,12 @@ where
                     break;
                 }
             }
+        }
+        #[cfg(feature = "verif-hooks")]
+        {
+            // the hold point lies outside the critical section: the guard would be dropped right here anyway
+            drop(vring_state);
+            vhost::vhost_user::verif_hooks::hold("ctl.epoll", u64::from(index));
         }
         Ok(())
     }
@@ -300,6 +308,8 @@ where
         // Disable all vrings
         for (index, vring) in self.vrings.iter().enumerate() {
             vring.set_enabled(false);
+            #[cfg(feature = "verif-hooks")]
+            vhost::vhost_user::verif_hooks::hold("ctl.state", index as u64);
             self.update_vring_registration(vring, index as u8)?;
         }
 
@@ -476,12 +486,16 @@ where
         // VHOST_USER_SET_VRING_KICK, and stop ring upon receiving
         // VHOST_USER_GET_VRING_BASE.
         vring.set_queue_ready(false);
+        #[cfg(feature = "verif-hooks")]
+        vhost::vhost_user::verif_hooks::hold("ctl.state", u64::from(index));
         self.update_vring_registration(vring, index as u8)?;
 
         let next_avail = vring.queue_next_avail();
 
         vring.set_kick(None);
         vring.set_call(None);
+        #[cfg(feature = "verif-hooks")]
+        vhost::vhost_user::verif_hooks::hold("ctl.drop", u64::from(index));
 
         Ok(VhostUserVringState::new(index, u32::from(next_avail)))
     }
@@ -497,6 +511,8 @@ where
         // Ideally, we'd have a generic way to refer to a uniquely-owned fd,
         // such as that proposed by Rust RFC #3128.
         vring.set_kick(file);
+        #[cfg(feature = "verif-hooks")]
+        vhost::vhost_user::verif_hooks::hold("ctl.state", u64::from(index));
 
         if self.vring_needs_init(vring) {
             self.initialize_vring(vring, index)?;
@@ -562,6 +578,8 @@ where
         // or after it has been disabled by VHOST_USER_SET_VRING_ENABLE
         // with parameter 0.
         vring.set_enabled(enable);
+        #[cfg(feature = "verif-hooks")]
+        vhost::vhost_user::verif_hooks::hold("ctl.state", u64::from(index));
         self.update_vring_registration(vring, index as u8)?;
 
         Ok(())
